@@ -778,6 +778,10 @@ def map_groups(tier, seed):
                     if n * max(0, (m - 1).bit_length()) <= (16 if thorough else 12):
                         groups.append({'part': 'map', 'cls': cls, 'kind': 'binary', 'n': n, 'm': m,
                                        'pre': pre})
+    # ranges beyond the sizes internal tables may be built for (9, 11, 12 bits)
+    for cls in ('CNF', 'OPB'):
+        for (n, m) in ((1, 257), (1, 1025), (1, 1500), (1, 2049), (2, 40)):
+            groups.append({'part': 'map', 'cls': cls, 'kind': 'binary', 'n': n, 'm': m, 'pre': 0})
     # VERIF_SEED rotates two additional mid-size binary mappings
     extra = [(6, 3), (4, 11), (5, 7), (2, 33), (3, 19), (7, 4)]
     for t in range(2):
